@@ -123,6 +123,13 @@ func compare(what string, c Case, got map[string]rebase.Enzyme) error {
 	return nil
 }
 
+func clipText(s string) string {
+	if len(s) > 200 {
+		return s[:200] + "…"
+	}
+	return s
+}
+
 func check(c Case) error {
 	text := write(c)
 	// the parser gets a buffer of its own, which is overwritten once it has returned (a caller re-using its read
@@ -135,7 +142,15 @@ func check(c Case) error {
 	}
 	// JSON export parses back to the same map
 	var back map[string]rebase.Enzyme
-	if err := json.Unmarshal(rebase.Export(got), &back); err != nil {
+	exported := rebase.Export(got)
+	snapshot := string(exported)
+	// the bytes handed back stay what they are when other maps are exported before they are read
+	_ = rebase.Export(map[string]rebase.Enzyme{"OtherI": {Name: "OtherI", RecognitionSequence: strings.Repeat("N", len(snapshot)/4)}})
+	_ = rebase.Export(map[string]rebase.Enzyme{"X": {Name: "X"}})
+	if string(exported) != snapshot {
+		return vk.Errf("the bytes returned by Export changed when other maps were exported afterwards: %q, was %q", clipText(string(exported)), clipText(snapshot))
+	}
+	if err := json.Unmarshal(exported, &back); err != nil {
 		return vk.Errf("Export is not valid JSON: %v", err)
 	}
 	if err := compare("json.Unmarshal(Export(Parse))", c, back); err != nil {
